@@ -392,10 +392,13 @@ func (r *Rel) Invert() Rel {
 //
 // This is the form stored in Schema.Rels.
 func (r *Rel) Normalize() Rel {
-	from := r.FromType + r.FromName
-	to := r.ToType + r.ToName
+	if r.ToName == "" {
+		return *r
+	}
 
-	if from < to || r.ToName == "" {
+	// The type names are compared first and then the relationship names.
+	// Comparing the concatenations would make "ab"+"c" and "a"+"bc" equal.
+	if r.FromType < r.ToType || (r.FromType == r.ToType && r.FromName <= r.ToName) {
 		return *r
 	}
 
